@@ -141,6 +141,12 @@ func zzH_C18_ratelimit_interval_reset(t *zzT) {
 	}
 	send(m)
 	rl.increaseCounter(zzProcB, other)
+	// a busy interval: 0, 2 or 100 further peers were each heard once on the same procedure (the
+	// counter table the reset has to clear is small or large)
+	crowd := []int{0, 2, 100}[t.Choice("crowd", 3)]
+	for i := 0; i < crowd; i++ {
+		rl.increaseCounter(zzProcA, PeerID("crowd-"+string(rune('A'+i/26))+string(rune('a'+i%26))))
+	}
 	t.Assert(zzScoreOf(p.connGater, zzIP1) == 0, "m ≤ limit messages: no penalty")
 
 	tick := t.Bool("interval elapses")
@@ -219,3 +225,18 @@ func zzH_C18_ratelimit_concurrent_streams(t *zzT) {
 	t.Assert(rl.rpcMessageCounters[zzProcA].counters[id] <= 1, "the penalty resets the counter (at most the one message handled after it remains)")
 	t.Reach("end")
 }
+
+// C17 premise: every inbound request and response passes increaseCounter / checkLimit before it reaches
+// the pending-request table, so the request/response layer can only stay live if the periodic reset of
+// the rate limiter always releases the counter locks — for small and large counter tables. Same harness
+// as C18.c (reset), registered under C17 for the "nothing stays blocked" clause (a lock left held shows
+// as a deadlock of the next message).
+//
+//zz:opt loop=4000 sched=1 mapperm=1
+//zz:opt require=reset,no_reset
+//zz:stub time.Now zzStubNow
+//zz:stub time.NewTicker zzStubNewTicker
+//zz:stub (*time.Ticker).Reset zzStubTickerReset
+//zz:quick M=3
+//zz:thorough M=5
+func zzH_C17_ratelimit_reset_never_blocks(t *zzT) { zzH_C18_ratelimit_interval_reset(t) }
